@@ -12,7 +12,7 @@ import itertools
 import json
 import os
 
-from . import common, flowgraph, pygen
+from . import c04_stdlib, common, evalmemo, flowgraph, pygen
 
 
 def orders_for(n, rng, quick):
@@ -198,7 +198,9 @@ def project_histories(check, S):
 
 def run(check):
     quick = check.tier == 'quick'
-    check.prove(extra_targets=('drv_flow',), extra_audit_modules=('SuppModel.Witness.C04',))
+    check.prove(extra_targets=('drv_flow', 'drv_evalmemo'), extra_audit_modules=('SuppModel.Witness.C04',))
+    # the attribute evaluator's cache discipline (cycle_guard): history independence for EVERY graph and history
+    check.prove_also('C04Eval')
     S = flowgraph.load_supp()
     tmp = os.path.join('/tmp', 'verif-c04-%d' % os.getpid())
     os.makedirs(tmp, exist_ok=True)
@@ -315,9 +317,13 @@ def run(check):
         check.sample({'program': label, 'source_head': src[:300], 'orders': [o[:8] for o in orders[:3]]})
     check.assumptions += [
         'the flow graph is taken from the real extractor (harness/flowgraph.py copies object structure); the theorems hold for every graph',
-        'evaluation memos of the attribute evaluator (_ctx_values, ImportedName._ref, MultiValue._rvalues) are outside this model; '
+        'evaluation memos of the attribute evaluator: the discipline of cached_property/context_property/cycle_guard is modelled '
+        '(family EvalMemo, Props/C04Eval.lean) over abstract one-slot nodes (MultiValue._rvalues is such a slot); ImportedName._ref is outside it; '
         'repeated-request determinism of lint is checked on the implementation only',
     ]
+    # last, so that the streams above draw the same random numbers as before this stream existed
+    evalmemo.run(check, S)
+    check.cov['evaluations'] += c04_stdlib.run(check, S)
     import shutil
     shutil.rmtree(tmp, ignore_errors=True)
 
@@ -331,6 +337,12 @@ def replay(path):
     bad = 0
     for item in data.get('failing_inputs', []):
         r = item['replay']
+        if 'stdlib_history' in r:
+            bad += bool(c04_stdlib.replay_item(S, r))
+            continue
+        if r.get('kind') == 'evalmemo':
+            bad += bool(evalmemo.replay_one(S, r))
+            continue
         if 'history' in r:
             root = tmp + '-p'
             for rel, content in r['files'].items():
